@@ -144,8 +144,8 @@ PROP_DRIVERS = {
     "C06": ["corpus", "conformant", "mutate", "rounds", "hostile"],
     "C07": ["corpus", "conformant", "mutate"],
     "C08": ["corpus", "conformant", "mutate", "struct", "protocols"],
-    "C09": ["corpus", "conformant", "mutate"],
-    "C10": ["corpus", "conformant", "mutate"],
+    "C09": ["corpus", "conformant", "mutate", "hostile"],
+    "C10": ["corpus", "conformant", "mutate", "hostile"],
     "C11": ["corpus", "conformant", "rounds"],
     "C12": ["corpus", "mutate", "conformant", "rounds"],
     "C13": ["corpus", "conformant", "mutate", "protocols"],
